@@ -70,7 +70,7 @@ func isPtr(t types.Type) bool { _, ok := t.Underlying().(*types.Pointer); return
 
 // isSecretsField: kv.secrets or any field of db.secret.
 func isSecretsField(fr eng.FieldRef) bool {
-	return fr.Is("db", "kv", "secrets") || eng.IsNamed(fr.Owner, "db", "secret")
+	return isKVRole(curProg, fr, "secrets") || eng.IsNamed(fr.Owner, "db", "secret")
 }
 
 // secretsAccess classifies an instruction as a direct access to the secrets
